@@ -166,6 +166,8 @@ func (t *fnTrans) call(ins ssa.Instruction, c *ssa.CallCommon, res ssa.Value) {
 			if _, ok := cenv.vars[k]; !ok {
 				cenv.vars[k] = v
 			}
+			// always visible as callee_<name> (recursive calls: the callee's names clash with the caller's)
+			cenv.vars["callee_"+k] = v
 		}
 		t.bindLocals(cenv)
 		for i, cl := range cls {
